@@ -68,6 +68,15 @@ CLAIMED = {
              note="The two _find_* functions enter the proofs as assumed summaries; their behaviour is checked bounded, never counted as "
                   "proved. Section.parent / Source.parent_source / referring_* are not under contract yet (store-level identity "
                   "reasoning).", ref="7 C13"),
+ "C14": dict(text="Partial: deductive proof, per check function and catalogue entry, that the entry is reported if and only if its "
+                  "condition holds and that nothing else is reported, for check_entity (and the block/group/source wrappers), "
+                  "check_property, check_sampled_dimension, check_range_dimension (ticks missing / not strictly increasing over "
+                  "every adjacent pair / unit not atomic) and tag_units_match_refs_units (nested loop invariants over every "
+                  "reference and every dimension).",
+             note="Messages are identified by template and arguments (str.format as an injective constructor). Getters are used through "
+                  "their contracts; units.is_atomic / scalable through their C09 contracts. check_data_array, check_tag, "
+                  "check_multi_tag, check_feature and the check_file traversal (polymorphic containers) are NOT under contract.",
+             ref="7 C14"),
 }
 NA_REASON = "check not built yet in this round (design in DESIGN.md section 7); will be claimed once its contracts discharge"
 checks, na = [], []
